@@ -672,10 +672,27 @@ def is_reward(prog, t, _again=True):
     if _again and t[0] == "payload":
         c = unwrap_payload(t)
         if c[0] == "call" and _body_of_call(prog, c) is not None:
-            from engine.analysis import resolve_head
+            from engine.analysis import resolve_head, guarded as _guarded, Guard as _Guard, Ctx as _Ctx
             r = resolve_head(prog, t)
-            if r != t:
-                return is_reward(prog, r, False)
+            if r != t and is_reward(prog, r, False):
+                return True
+            # loop spelling in a helper: `for coin in funds { if coin.denom == wanted { return Ok(coin.amount) } } Err(..)`
+            funds_elem = lambda x: is_next_elem(x, lambda c_: field_path(c_)[1] == ["funds"] and is_param_of_type(field_path(c_)[0], "MessageInfo"))
+            if r[0] == "field" and r[2] == "amount" and funds_elem(r[1]):
+                cb = _body_of_call(prog, c)
+                cc = _Ctx(cb, params={i + 1: a for i, a in enumerate(c[2])})
+
+                def denom_eq(x):
+                    if x[0] == "call" and x[1] in EQ:
+                        a_, b_ = x[2]
+                        for u, v in ((a_, b_), (b_, a_)):
+                            if u[0] == "field" and u[2] == "denom" and norm(u[1]) == norm(r[1]) and loaded_field(prog, v, "config", ["protocol_chain_config", "ibc_token_denom"], "staking"):
+                                return EQ[x[1]]
+                    return None
+
+                found = []
+                ok, _ = _guarded(cc, _Guard("denom", boolean=denom_eq), prog, 1, found)
+                return bool(ok and found)
     return False
 
 
